@@ -148,7 +148,8 @@ def handleC15 (fields : List String) : Verdict :=
           if n > 4 then none else
           let U := List.range (n * n)
           match SemExec.semTT U 4 (modelFuel f) f [] with
-          | none => some "the emitted formula cannot be evaluated"
+          -- outside the evaluator's reach (its fuel, a construct it does not know): nothing is said
+          | none => none
           | some tt =>
             match (List.range (2 ^ (n * n))).find? (fun mask =>
               tt.getD mask false != isNQueens n (fun k => mask.testBit k)) with
